@@ -105,10 +105,85 @@ def run_corpus(prop, root='/repo', jobs=None):
     return summary
 
 
+def _patch_one(args):
+    prop, root, patch, base = args
+    import subprocess
+    tmp = tempfile.mkdtemp(prefix='verif-selftest.')
+    try:
+        shutil.copytree(pathlib.Path(root) / 'supvisors', tmp + '/supvisors',
+                        ignore=shutil.ignore_patterns('__pycache__', 'ui'))
+        docs = pathlib.Path(root) / 'docs' / 'configuration.rst'
+        if docs.exists():
+            os.makedirs(tmp + '/docs')
+            shutil.copy(docs, tmp + '/docs/configuration.rst')
+        r = subprocess.run(['patch', '-p1', '-s', '--no-backup-if-mismatch', '-i', str(patch)], cwd=tmp,
+                           capture_output=True, text=True)
+        if r.returncode != 0:
+            return str(patch), 'skipped', 'patch does not apply to the current tree', []
+        try:
+            keys = _keys(prop, tmp)
+        except Exception as exc:
+            return str(patch), 'analysis-error', str(exc)[:200], []
+        return str(patch), 'ran', '', [k for k in keys if k not in base]
+    finally:
+        shutil.rmtree(tmp, ignore_errors=True)
+
+
+def run_patches(prop, root='/repo', jobs=None):
+    """the confirmed patches kept under /verif: seeded/<prop>-k (written against this property: must be reported) and
+    neutral/* aimed at this property (behaviour-preserving refactorings: must stay silent)."""
+    import json
+    verif = pathlib.Path(__file__).resolve().parent.parent
+    seeded = sorted((verif / 'seeded').glob(prop + '-*/patch.diff'))
+    neutral = []
+    for pth in sorted((verif / 'neutral').glob('*/patch.diff')):
+        try:
+            meta = json.loads((pth.parent / 'meta.json').read_text())
+        except Exception:
+            meta = {}
+        if prop in (meta.get('properties') or [meta.get('property')]):
+            neutral.append(pth)
+    if not seeded and not neutral:
+        return {}
+    base = _keys(prop, root)
+    out = {'seeded_total': 0, 'seeded_detected': 0, 'seeded_missed': [], 'neutral_total': 0, 'neutral_silent': 0,
+           'neutral_fired': [], 'skipped': []}
+    with ProcessPoolExecutor(max_workers=jobs or min(16, os.cpu_count() or 4)) as ex:
+        res = list(ex.map(_patch_one, [(prop, root, p, base) for p in seeded + neutral]))
+    for (pth, status, info, new), src in zip(res, seeded + neutral):
+        name = src.parent.name
+        if status == 'skipped':
+            out['skipped'].append({'patch': name, 'why': info})
+        elif src in seeded:
+            out['seeded_total'] += 1
+            if new or status == 'analysis-error':
+                out['seeded_detected'] += 1
+            else:
+                out['seeded_missed'].append(name)
+        else:
+            out['neutral_total'] += 1
+            if not new and status != 'analysis-error':
+                out['neutral_silent'] += 1
+            else:
+                out['neutral_fired'].append({'patch': name, 'keys': new[:3], 'info': info})
+    return out
+
+
 def run(prop, R):
     """called by the driver for --tier thorough: adds the self-test outcome to the evidence of the run."""
     s = run_corpus(prop, R.root)
     R.extra['selftest'] = s
+    ps = run_patches(prop, R.root)
+    if ps:
+        R.extra['selftest_patches'] = ps
+        for nm in ps['seeded_missed']:
+            print('SELFTEST-MISS property=%s kept seeded change %s is not reported' % (prop, nm))
+        for nf in ps['neutral_fired']:
+            print('SELFTEST-NEUTRAL-FIRED property=%s behaviour-preserving refactoring %s reported as %s %s' %
+                  (prop, nf['patch'], nf['keys'], nf['info']))
+        print('%s kept patches: %d/%d seeded changes reported, %d/%d behaviour-preserving refactorings silent, %d skipped'
+              % (prop, ps['seeded_detected'], ps['seeded_total'], ps['neutral_silent'], ps['neutral_total'],
+                 len(ps['skipped'])))
     for mm in s.get('missed', []):
         print('SELFTEST-MISS property=%s %s (expected a finding containing %s)' % (prop, mm['edit'], mm['expected']))
     for nf in s.get('neutral_fired', []):
